@@ -184,8 +184,10 @@ fn validate(input: &str) -> Result<(), InvalidDomainConstraint> {
                         });
                     }
 
-                    // Check if it's a valid Rust identifier using syn
-                    if syn::parse_str::<syn::Ident>(&p.name).is_err() {
+                    // Check if it's a valid Rust identifier using syn.
+                    // `syn` skips whitespace and comments around the identifier:
+                    // the name must be the identifier, nothing more.
+                    if !syn::parse_str::<syn::Ident>(&p.name).is_ok_and(|ident| ident == p.name) {
                         return Err(InvalidDomainConstraint::InvalidParameterName {
                             original: input.to_string(),
                             parameter_name: p.name,
